@@ -51,6 +51,56 @@ fn time_len(s: &str) -> icu_datetime::options::length::Time {
 
 /// direct ICU4X formatting, not going through leptos_i18n
 pub fn icu_direct(kind: &str, args: &[String], locale: &str) -> String {
+    icu_direct_val(kind, args, locale, &Val { num: num(), date: date(), time: time(), list: list().iter().map(|s| s.to_string()).collect() })
+}
+
+/// the value a formatter is applied to (only the member of the formatter's kind is looked at)
+pub struct Val {
+    pub num: FixedDecimal,
+    pub date: Date<AnyCalendar>,
+    pub time: Time,
+    pub list: Vec<String>,
+}
+
+pub fn date_of(t: &str) -> Date<AnyCalendar> {
+    let p: Vec<i32> = t.split('-').map(|x| x.parse().unwrap()).collect();
+    Date::try_new_iso_date(p[0], p[1] as u8, p[2] as u8).unwrap().to_any()
+}
+pub fn time_of(t: &str) -> Time {
+    let p: Vec<u8> = t.split(':').map(|x| x.parse().unwrap()).collect();
+    Time::try_new(p[0], p[1], p[2], 0).unwrap()
+}
+pub fn datetime_of(t: &str) -> DateTime<AnyCalendar> {
+    let (a, b) = t.split_once('T').unwrap();
+    DateTime::new(date_of(a), time_of(b))
+}
+
+impl Val {
+    /// `text`: a decimal number, `YYYY-MM-DD`, `HH:MM:SS`, `YYYY-MM-DDTHH:MM:SS`, or the items of a list joined by `,`
+    pub fn parse(kind: &str, text: &str) -> Val {
+        let mut v = Val { num: num(), date: date(), time: time(), list: vec![] };
+        let (d, tm) = (date_of, time_of);
+        match kind {
+            "number" | "currency" => v.num = FixedDecimal::from_str(text).unwrap(),
+            "date" => v.date = d(text),
+            "time" => v.time = tm(text),
+            "datetime" => {
+                let (a, b) = text.split_once('T').unwrap();
+                v.date = d(a);
+                v.time = tm(b);
+            }
+            "list" => v.list = if text.is_empty() { vec![] } else { text.split(',').map(|x| x.to_string()).collect() },
+            _ => {}
+        }
+        v
+    }
+    pub fn datetime(&self) -> DateTime<AnyCalendar> {
+        let iso = self.date.to_iso();
+        DateTime::new(Date::try_new_iso_date(iso.year().number, iso.month().ordinal as u8, iso.day_of_month().0 as u8).unwrap().to_any(), self.time)
+    }
+}
+
+pub fn icu_direct_val(kind: &str, args: &[String], locale: &str, val: &Val) -> String {
     let loc: icu_locid::Locale = locale.parse().unwrap();
     let dl = (&loc).into();
     match kind {
@@ -63,20 +113,20 @@ pub fn icu_direct(kind: &str, args: &[String], locale: &str) -> String {
                 _ => G::Auto,
             };
             let f = icu_decimal::FixedDecimalFormatter::try_new(&dl, FixedDecimalFormatterOptions::from(g)).unwrap();
-            f.format(&num()).write_to_string().into_owned()
+            f.format(&val.num).write_to_string().into_owned()
         }
         "date" => {
             let f = icu_datetime::DateFormatter::try_new_with_length(&dl, date_len(&args[0])).unwrap();
-            f.format_to_string(&date()).unwrap()
+            f.format_to_string(&val.date).unwrap()
         }
         "time" => {
             let f = icu_datetime::TimeFormatter::try_new_with_length(&dl, time_len(&args[0])).unwrap();
-            f.format_to_string(&time())
+            f.format_to_string(&val.time)
         }
         "datetime" => {
             let bag = icu_datetime::options::length::Bag::from_date_time_style(date_len(&args[0]), time_len(&args[1]));
             let f = icu_datetime::DateTimeFormatter::try_new(&dl, bag.into()).unwrap();
-            f.format_to_string(&datetime()).unwrap()
+            f.format_to_string(&val.datetime()).unwrap()
         }
         "list" => {
             use icu_list::{ListFormatter, ListLength as L};
@@ -91,7 +141,7 @@ pub fn icu_direct(kind: &str, args: &[String], locale: &str) -> String {
                 _ => ListFormatter::try_new_unit_with_length(&dl, len),
             }
             .unwrap();
-            f.format_to_string(list().iter())
+            f.format_to_string(val.list.iter())
         }
         "currency" => {
             use icu_experimental::dimension::currency::formatter::{CurrencyCode, CurrencyFormatter};
@@ -99,7 +149,7 @@ pub fn icu_direct(kind: &str, args: &[String], locale: &str) -> String {
             let w = if args[0] == "narrow" { Width::Narrow } else { Width::Short };
             let f = CurrencyFormatter::try_new(&dl, CurrencyFormatterOptions::from(w)).unwrap();
             let code = CurrencyCode(tinystr::TinyAsciiStr::from_str(&args[1]).unwrap());
-            f.format_fixed_decimal(&num(), code).write_to_string().into_owned()
+            f.format_fixed_decimal(&val.num, code).write_to_string().into_owned()
         }
         other => format!("unknown kind {}", other),
     }
@@ -165,5 +215,29 @@ pub fn do_fmt(c: &Value, w: &mut Out) {
         // the Display event carries two renderings of the same text
         ev["icu"] = if ev["via"].as_str().unwrap().contains('|') { json!(format!("{}|{}", icu, icu)) } else { json!(icu) };
         w.emit(&ev);
+    }
+}
+
+/// C18, values: a formatter key applied to a value of a given Rust type, written as text in the case
+pub fn do_fmtval(c: &Value, w: &mut Out) {
+    let id = c["case"].clone();
+    for call in c["calls"].as_array().unwrap() {
+        let key = call["key"].as_str().unwrap();
+        let locale = call["locale"].as_str().unwrap();
+        let kind = call["kind"].as_str().unwrap();
+        let ty = call["ty"].as_str().unwrap();
+        let text = call["text"].as_str().unwrap();
+        let args: Vec<String> = call["args"].as_array().unwrap().iter().map(|a| a.as_str().unwrap().to_string()).collect();
+        let l = Locale::from_str(locale).unwrap();
+        let val = Val::parse(kind, text);
+        let icu = crate::run_caught(|| icu_direct_val(kind, &args, locale, &val)).unwrap_or_else(|m| format!("ORACLE-PANIC {}", m));
+        for via in ["key", "td_format_string", "td"] {
+            let out = match crate::run_caught(|| render_val(l, key, via, ty, text)) {
+                Ok(Some(s)) => s,
+                Ok(None) => "NOKEY".to_string(),
+                Err(msg) => format!("PANIC {}", msg),
+            };
+            w.emit(&json!({"ev": "FmtVal", "case": id, "key": key, "locale": l.as_str(), "via": via, "kind": kind, "args": args, "ty": ty, "text": text, "out": out, "icu": icu}));
+        }
     }
 }
